@@ -408,9 +408,42 @@ def r17_5(ctx):
     ctx.check(text == "{\x00}", "one-liner-braces", f.where(), "to_yaml_one_liner returns `{` + entries + `}`", "to_yaml_one_liner returns %r" % text)
 
 
+def r17_6(ctx):
+    """front matter: the opening and the closing delimiter are lines that *equal* `---`. serde_yaml writes multi-line values as indented block
+    scalars, so a value line `  ---` is legal inside the front matter; a trimmed comparison ends the block there and the rest of the
+    configuration is silently lost"""
+    prog = ctx.prog
+    f = prog.fn("<MarkdownIterator<'_> as Iterator>::next")
+    bodies = [f] + [b for b in prog.bodies if b.promoted is None and b.file == f.file and b.npath.startswith("parsers::markdown::MarkdownIterator")]
+    n = 0
+    seen = set()
+    for b in bodies:
+        if id(b) in seen:
+            continue
+        seen.add(id(b))
+        o = Origins(b)
+        for bb, t in b.calls():
+            if method_name(callee_name(t, resolved=False) or "") not in ("PartialEq::eq", "PartialEq::ne"):
+                continue
+            sides = [o.operand(a) for a in t["args"]]
+            lit = [const_str_of(prog, b, x) for x in sides]
+            if "---" not in lit:
+                continue
+            other = sides[1 - lit.index("---")]
+            n += 1
+            rew = sorted({method_name(x.a) for x in other.walk() if x.kind == "call" and method_name(x.a) in
+                          ("str::trim", "str::trim_start", "str::trim_end", "str::trim_matches", "str::trim_end_matches", "str::trim_start_matches", "str::to_lowercase")})
+            ctx.check(not rew, "frontmatter-delimiter#%d" % n, b.loc(bb), "a front-matter delimiter is a line equal to `---` (compared untrimmed)",
+                      "a front-matter delimiter is recognised after %s: an indented `---` inside a block scalar of the rendered configuration ends the front matter early, "
+                      "the keys after it are dropped without an error" % rew)
+    ctx.check(n >= 2, "frontmatter-delimiters", f.where(), "%d comparisons with the `---` delimiter found (opening and closing)" % n,
+              "only %d comparisons with `---` found in the Markdown tokenizer" % n)
+
+
 def run(ctx):
     ctx.run_rule("R17.1", "to_yaml_one_liner: every free-text value (environment keys/values, wait.path) passes a quoting function before interpolation [E-FLOW taint]", r17_1, floor=4)
     ctx.run_rule("R17.2", "key tables: one-liner keys == serde field names (write and read side) of TestCaseConfig / TestCaseWait; no field unrendered [E-TABLE]", r17_2, floor=3)
     ctx.run_rule("R17.3", "OutputStreamControl: lowercase(Display name) == serde variant name for every variant [E-TABLE]", r17_3, floor=4)
+    ctx.run_rule("R17.6", "front matter is delimited by lines equal to `---`, compared untrimmed (block scalars of the rendered config may contain indented `---` lines) [E-FLOW]", r17_6, floor=3)
     ctx.run_rule("R17.4", "serialize_with/deserialize_with pairing per type; humantime on both sides; same `null` literal [E-TABLE]", r17_4, floor=6)
     ctx.run_rule("R17.5", "fence config: one `{}` pair stripped by the tokenizer, one re-wrapped by parser, update and one-liner [E-TABLE]", r17_5, floor=4)
